@@ -130,10 +130,16 @@ def run(s):
              kind="finite")
 
     # ---------------- L2: parameter normalisation on a symbolic strain array of symbolic length
-    ntv = Dim("ntv")
-    E = SymArr.atom("e", (ntv, 3), lambda idx, v: v > 0)
-
     def l2(key):
+        return lambda: l2_obligation(tasks, key, tier)
+    for key in keys:
+        if not key.is_shear:
+            s.oblige("C04.L2.normalised_fractions[c%d%d]" % key.voigt, l2(key), [T + "PhononContributionTaskParams._make_param_by_strain_key"])
+
+    def _unused_l2(key):
+        ntv = Dim("ntv")
+        E = SymArr.atom("e", (ntv, 3), lambda idx, v: v > 0)
+
         def ob():
             with patched(tasks, numpy=SymNumpy()):
                 def thunk():
@@ -150,9 +156,6 @@ def run(s):
                     r.witness_id = "make_param%r" % (key,)
                 return r
         return ob
-    for key in keys:
-        if not key.is_shear:
-            s.oblige("C04.L2.normalised_fractions[c%d%d]" % key.voigt, l2(key), [T + "PhononContributionTaskParams._make_param_by_strain_key"])
 
     def l2_shear():
         for key in shear_keys:
@@ -244,6 +247,26 @@ def run(s):
     # ---------------- plumbing: bounded stand-in with symbolic values
     plumbing(s, tasks, keys, rnd)
     s.min_obligations = 11
+
+
+def l2_obligation(tasks, key, tier):
+    """_make_param_by_strain_key(strain, key) = (e_i / sum e, e_k / sum e) on a symbolic strain array of symbolic length"""
+    ntv = Dim("ntv_l2")
+    E = SymArr.atom("e_l2", (ntv, 3), lambda idx, v: v > 0)
+    with patched(tasks, numpy=SymNumpy()):
+        def thunk():
+            r = tasks.PhononContributionTaskParams._make_param_by_strain_key(E, key)
+            if not (isinstance(r, tuple) and len(r) == 2 and all(symnp.is_arr(x) for x in r)):
+                raise symnp.ShapeObligation("result is not a pair of arrays")
+            return SymNumpy().stack_list(list(r))
+        i, _, k, _ = key.standard
+        tot = lambda v: E.elem((v, z3.IntVal(0))) + E.elem((v, z3.IntVal(1))) + E.elem((v, z3.IntVal(2)))
+        spec = SymArr((2, ntv), lambda idx: z3.If(idx[0] == 0, E.elem((idx[1], z3.IntVal(i - 1))), E.elem((idx[1], z3.IntVal(k - 1)))) / tot(idx[1]))
+        r = symnp.prove_code_equals(thunk, spec, [], tier=tier, name="make_param%r" % (key,))
+        if r.status == core.REFUTED:
+            r.replay = native_l2(tasks, key)
+            r.witness_id = "make_param%r" % (key,)
+        return r
 
 
 def canary_iso(keys, c_):
